@@ -5,10 +5,18 @@ import gen as G
 
 MODEL_TARGETS = ["model/SchemaJson.vo", "model/Parse.vo", "model/CanonicalForm.vo"]
 COQ_TARGETS = ["props/C09.vo"]
-THEOREMS = [("C09", [])]
-PROOF_FILES = ["props/C09.v"]
-TRUSTED_BASE = []
-ASSUMPTIONS = []
+THEOREMS = [("C09", ["C09_regen", "C09_unnamed_cycle_rejected", "C09_renders_when_wf", "C09_edge_ref", "C09_edge_def"])]
+PROOF_FILES = ["proofs/SchemaTextProofs.v", "proofs/SchemaJsonDefs.v", "proofs/SchemaJsonGuard.v", "proofs/SchemaJsonCfOk.v", "proofs/SchemaJsonRaw.v",
+               "proofs/SchemaJsonCf.v", "proofs/SchemaJsonSim.v", "proofs/SchemaJsonProofs.v", "props/C09.v"]
+TRUSTED_BASE = [
+    "Coq 8.16.1 kernel; no axioms (Print Assumptions: closed)",
+    "hand-written models SchemaJson.v (serialize.rs: named node written once then by reference, namespace-relative spelling, generation-counter cycle guard), Parse.v, CanonicalForm.v tied by the correspondence run (JSON text, re-parsed node kinds / logical types / fingerprint, model vs crate)",
+    "the JSON text <-> document step (serde_json) is outside the model: the theorem is about the document the writer emits",
+]
+ASSUMPTIONS = [
+    "proved: for every well-formed graph (distinct valid fullnames, keys in range, no unnamed-only cycle, no unconditional record cycle) the regenerated document parses back to a graph with the same canonical form, fingerprint and depth-n unfoldings for every n (names, field order, symbols, sizes, logical types with parameters), including shared and cyclic named types in any namespace arrangement; unnamed-only cycles are errors (C09_unnamed_cycle_rejected)",
+    "'parsed, unedited schema reports the original document minified' is storage of the caller's text through serde_transcode: decided on the crate (json() of parsed documents = independent minifier)",
+]
 
 def logical_multiset(nodes_sx, reach=None):
     out = []
